@@ -700,10 +700,13 @@ class Run:
                     continue
             env.update({k2: v2 for k2, v2 in env2.items() if k2 not in env or env[k2] is not v2})
             # arm-local bindings shadow; evaluate in env2 but propagate assignments to outer vars
-            res = self.eval(arm["body"], env2)
-            for k2 in list(env.keys()):
-                if k2 in env2:
-                    env[k2] = env2[k2]
+            try:
+                res = self.eval(arm["body"], env2)
+            finally:
+                # (also when the arm leaves by break / return: what it assigned to outer locals is visible afterwards)
+                for k2 in list(env.keys()):
+                    if k2 in env2:
+                        env[k2] = env2[k2]
             return res
         # no arm matched (possible only through forks): infeasible path
         raise _Infeasible()
@@ -722,19 +725,10 @@ class Run:
             raise Unsupported("nested loop")
         self.depth_loops += 1
         try:
-            try:
-                self.block(e["body"], env)
-            except _Continue as c:
-                if c.label is not None and c.label != lab:
-                    raise
-            except _Break as b:
-                if b.label is None or b.label == lab:
-                    self.depth_loops -= 1
-                    return b.v if b.v is not None else UNIT
-                raise
-            raise _LoopBack()
+            # one iteration from an arbitrary state, bracketed by loop markers; an iteration that completes goes round (_LoopBack)
+            return self._summary_loop("loop", e["body"], env, markers=False)
         finally:
-            pass
+            self.depth_loops -= 1
 
     depth_loops = 0
 
@@ -850,14 +844,108 @@ class Run:
         walk(body, f)
         return names
 
-    def _summary_loop(self, what, body, env, outer=None):
+    def _exit_assigned(self, body, name):
+        """every write of the local `name` in the loop body is in a block whose last statement leaves the loop (break / return):
+        the iteration that writes it is the last one, so at the head and on normal completion it still has its value from before
+        the loop, and after a break it has exactly what that iteration wrote (`found = x; break` is `break x` / `return x`)"""
+        def root(t):
+            while t.get("k") in ("Unary", "Ref", "Index", "Field", "Paren"):
+                t = t["e"]
+            return t["path"] if t.get("k") == "Path" else None
+
+        def writes_here(e):
+            """does expression e (not descending into nested blocks) write name?"""
+            hit = [False]
+            ke = e.get("k")
+            if ke == "If":
+                return writes_here(e["cond"])
+            if ke == "Match":
+                return writes_here(e["e"])
+            if ke in ("Block", "Loop", "While", "For", "Closure"):
+                return False
+
+            def f(n):
+                k = n.get("k")
+                if k in ("Block", "If", "Match", "Loop", "While", "For", "Closure"):
+                    return False
+                if k == "Assign" and root(n["lhs"]) == name:
+                    hit[0] = True
+                elif k == "Binary" and n["op"].endswith("=") and n["op"] not in ("==", "!=", "<=", ">=") and root(n["l"]) == name:
+                    hit[0] = True
+                elif k == "MethodCall" and n["m"] not in PURE_METHODS and root(n["recv"]) == name:
+                    hit[0] = True
+            from .ast import walk
+            walk(e, f)
+            return hit[0]
+
+        def mentions_write(node):
+            found = [False]
+
+            def f(n):
+                k = n.get("k")
+                if k == "Closure":
+                    return False
+                if (k == "Assign" and root(n["lhs"]) == name) or (k == "Binary" and n["op"].endswith("=") and n["op"] not in ("==", "!=", "<=", ">=") and root(n["l"]) == name) or (
+                        k == "MethodCall" and n["m"] not in PURE_METHODS and root(n["recv"]) == name):
+                    found[0] = True
+            from .ast import walk
+            walk(node, f)
+            return found[0]
+
+        def leaves(stmts):
+            if not stmts:
+                return False
+            last = stmts[-1]
+            return last.get("k") == "ExprStmt" and last["e"].get("k") in ("Break", "Return")
+
+        def check_block(stmts):
+            for st in stmts:
+                k = st.get("k")
+                ex = st.get("e") if k == "ExprStmt" else st.get("init") if k == "Let" else None
+                if ex is None:
+                    continue
+                if writes_here(ex) and not leaves(stmts):
+                    return False
+                if not check_expr(ex, leaves(stmts)):
+                    return False
+            return True
+
+        def check_expr(ex, stmt_leaves=False):
+            k = ex.get("k")
+            if not stmt_leaves and writes_here(ex):
+                return False  # a write in expression position (a match arm without a block, a condition): nothing leaves after it
+            if k in ("Loop", "While", "For"):
+                return not mentions_write(ex)
+            if k == "Block":
+                return check_block(ex["body"])
+            if k == "If":
+                return check_block(ex["then"]) and (ex.get("else") is None or check_expr(ex["else"]))
+            if k == "Match":
+                return all(check_expr(a["body"]) for a in ex["arms"])
+            if k == "Closure":
+                return True
+            for v in ex.values():
+                if isinstance(v, dict) and "k" in v and not check_expr(v):
+                    return False
+                if isinstance(v, list):
+                    for x in v:
+                        if isinstance(x, dict) and "k" in x and not check_expr(x):
+                            return False
+            return True
+
+        return check_block(body)
+
+    def _summary_loop(self, what, body, env, outer=None, markers=True):
         """a data-dependent loop: its body is evaluated once from an arbitrary iteration (loop-carried locals are
         unknown at the head), bracketed by loop markers; afterwards the carried locals hold 'whatever the loop left'"""
         carried = self._assigned_locals(body, env)
+        exit_assigned = [n for n in carried if self._exit_assigned(body, n)]
         env2 = dict(env)
         for n in carried:
-            env2[n] = ("unk", "\u03c6(%s)" % showv(env[n]))
-        self.act("loop-begin " + what)
+            if n not in exit_assigned:
+                env2[n] = ("unk", "\u03c6(%s)" % showv(env[n]))
+        if markers:
+            self.act("loop-begin " + what)
         how = "end"
         brk_val = UNIT
         try:
@@ -865,12 +953,27 @@ class Run:
         except _Break as b:
             how = "break"
             if b.v is not None:
-                brk_val = ("unk", "loop(%s)" % showv(b.v))
+                brk_val = b.v
         except _Continue:
             how = "end"  # `continue` = falling off the end of the body: the iteration is over either way
-        self.act("loop-end", [("unk", how)])
+        except _Return:
+            # leaving the function from inside the loop also leaves the loop
+            if markers:
+                self.act("loop-end", [("unk", "break")])
+            raise
+        if how == "end" and what == "loop":
+            # an iteration of `loop` / `while` that completes goes round again: nothing after the loop follows from it; what the
+            # iteration leaves in the loop-carried locals is part of its effect (positional, so that renaming a local is invisible)
+            if markers:
+                self.act("loop-end", [("unk", how)] + [("unk", showv(env2.get(n, env[n]))) for n in carried if n not in exit_assigned])
+            raise _LoopBack()
+        if markers:
+            self.act("loop-end", [("unk", how)])
         for n in carried:
-            val = ("unk", "loop(%s)" % showv(env2.get(n, env[n])))
+            if n in exit_assigned:
+                val = env2.get(n, env[n]) if how == "break" else env[n]
+            else:
+                val = ("unk", "loop(%s)" % showv(env2.get(n, env[n])))
             env[n] = val
             if outer is not None and n in outer:
                 outer[n] = val
@@ -881,8 +984,7 @@ class Run:
         shape for both spellings, the test appears as an ordinary guard inside the loop"""
         brk = {"k": "Block", "body": [{"k": "ExprStmt", "e": {"k": "Break"}, "semi": True}]}
         body = [{"k": "ExprStmt", "e": {"k": "If", "cond": e["cond"], "then": e["body"], "else": brk}, "semi": False}]
-        env2 = dict(env)
-        return self._summary_loop("loop", body, env2, env)
+        return self.e_Loop({"k": "Loop", "body": body, "label": e.get("label")}, env)
 
     def e_For(self, e, env):
         env2 = dict(env)
